@@ -75,10 +75,7 @@ def _ack_fits(ack_segs, d, fname):
 
 def check_case(case):
     out = _check_case(case)
-    if 'env:drop-trailer' in (case.get('meta') or {}).get('faults', []):
-        # a set or group left unterminated in mid-file: failures on such inputs are kept apart (own buckets)
-        out.failures = [(b_ + '[unterminated-set-or-group]', d_) for b_, d_ in out.failures]
-        out.classes.append('unterminated-set-or-group')
+    genfaulty.tag_structural(case, out)
     return out
 
 
@@ -194,7 +191,7 @@ def run_entry(entry, n, seed, acc, tier):
         if mode == 'hostile':
             delims = ch.choice([('|', '!', '>', '`'), ('\n', '|', '\\', '`'), ('\x1c', '\x1d', '\x1e', '\x1f')])
             kw.update(avoid=''.join(delims), hostile_values=HOSTILE, flavor='punct',
-                      kinds=['too-long', 'not-in-code-list', 'wrong-char-class', 'extra-element', 'too-short', 'bad-date'])
+                      kinds=['too-long', 'not-in-code-list', 'wrong-char-class', 'extra-element', 'too-short', 'bad-date', 'unknown-segment'])
         elif mode == 'many-groups':
             kw.update(shapes=[(1, 4, 1), (1, 6, 1), (1, 5, 2)], max_faults=3)
         if mode == 'mixed-maps':
